@@ -41,7 +41,7 @@ ASSUMPTIONS = [
     "different-origin generic pairs are evidence only (the statement fixes the same-origin case)",
 ]
 REPORT_COUNTERS = ["hierarchies", "pairs_L1", "reflexive_L2", "class_pairs_L3", "class_triples_L3", "generic_L4",
-                   "member_L5", "pairs_seen_in_dispatch", "online_mirror_checked", "exceptions"]
+                   "member_L5", "late_registration_L3", "pairs_seen_in_dispatch", "online_mirror_checked", "exceptions"]
 
 
 def plan(tier):
@@ -320,6 +320,34 @@ def check_case(spec, res):
             res.ev()
             if safe(cobj[a], cobj[c]) is not Order.LESS:
                 res.violation("L3-transitive", ["classes"], spec, observed={"a": a, "b": b, "c": c}, acceptable="LESS")
+    # L3 after a late ABC registration: the answer follows issubclass as it is *now*, in both directions
+    Shape = env.cls("Shape")
+    late = [c for c in classes if c in [x["name"] for x in spec["hier"]] and not issubclass(cobj[c], Shape)][:2]
+    for c in late:
+        before = (safe(cobj[c], Shape), safe(Shape, cobj[c]))
+        Shape.register(cobj[c])
+        for a, b in ((cobj[c], Shape), (Shape, cobj[c])):
+            res.ev()
+            res.count("late_registration_L3")
+            exp = Order.LESS if a is not Shape else Order.MORE
+            got = safe(a, b)
+            if got is not exp:
+                res.violation("L3-issubclass-after-late-registration", [str(before[0]), str(got)], spec,
+                              observed={"class": c, "before_registration": [str(x) for x in before], "typeorder": str(got),
+                                        "direction": "class,ABC" if a is not Shape else "ABC,class"},
+                              acceptable=exp.name)
+        for other in classes:
+            if other == c:
+                continue
+            res.count("late_registration_L3")
+            for a, b in ((cobj[c], cobj[other]), (cobj[other], cobj[c])):
+                sub, sup = issubclass(a, b), issubclass(b, a)
+                exp = Order.LESS if sub and not sup else Order.MORE if sup and not sub else Order.NONE if not sub else None
+                got = safe(a, b)
+                if exp is not None and got is not exp:
+                    res.violation("L3-issubclass-after-late-registration", ["other-class"], spec,
+                                  observed={"a": getattr(a, "__name__", str(a)), "b": getattr(b, "__name__", str(b)), "typeorder": str(got)},
+                                  acceptable=exp.name)
     # L4
     for shape, an, bn in spec["generics"]:
         a, b = env.cls(an), env.cls(bn)
